@@ -70,8 +70,12 @@ class Report:
         wall = time.time() - self.t0
         os.makedirs(os.path.join(VERIF, "evidence"), exist_ok=True)
         paths = []
+        d = os.path.join(VERIF, "replays", self.prop)
+        if os.path.isdir(d):
+            for old in os.listdir(d):
+                if old.endswith(".json"):
+                    os.unlink(os.path.join(d, old))
         for key, what, replay in self.violations[:50]:
-            d = os.path.join(VERIF, "replays", self.prop)
             os.makedirs(d, exist_ok=True)
             h = hashlib.sha1(key.encode()).hexdigest()[:12]
             path = os.path.join(d, h + ".json")
